@@ -24,3 +24,14 @@ build_variant() {
 }
 
 sim_bin() { echo "$SIM/target-$1/release/ippsim"; }
+
+# ipputil: the shipped artefact, built from /repo's working tree with the guard OFF (no RUSTFLAGS), own target dir
+build_ipputil() {
+    log="$VERIF_ROOT/work/build-ipputil.log"
+    mkdir -p "$VERIF_ROOT/work"
+    if ! (cd /repo && env -u RUSTFLAGS cargo build --release --offline -p ipp-util --target-dir "$VERIF_ROOT/target-ipputil" >"$log" 2>&1); then
+        echo "harness error: build of ipputil failed (see $log)" >&2
+        tail -n 30 "$log" >&2
+        exit 2
+    fi
+}
